@@ -1558,6 +1558,23 @@ def c17(ctx):
             m4 = next((l for l in c.mlines if l.startswith('m4 ')), None)
             if m4 is None:
                 continue
+        # the order condition of the placement theorem (C17_displaced_provider_is_placed_before_its_consumers), evaluated by
+        # the driver for every provider still marked Reorder: where it holds, the implementation must not have given up on it
+        for c in allc:
+            ml = next((l for l in c.mlines if l.startswith('m4live ')), None)
+            hdr, fs = dump_funcs(c, 'S4')
+            if ml is None or fs is None or ml.strip() == 'm4live -':
+                continue
+            gave = {f['id'] for f in fs if 'dependencies_not_met' in f.get('why', '')}
+            for ent in ml.split()[1:]:
+                pid, kx = ent.split(':')
+                if kx == 'none':
+                    st['placement_condition_not_met'] += 1
+                    continue
+                st['placement_condition_met'] += 1
+                if pid in gave:
+                    ctx.violations.append(('reorder gave up on provider %s although the order condition of the placement theorem holds for it '
+                                           '(kx=%s, case %s)' % (pid, kx, c.key), write_replay(ctx, 'case_%s.txt' % c.key, c.text()), True))
             t = m4.split(); d = kv(m4)
             if d.get('reorder') != '1':
                 continue
@@ -1581,6 +1598,30 @@ def c17(ctx):
                         'prefix': 'reorder moved a provider in front of the invoke function (Bind keeps using the old index of the invoke function)',
                         'final': 'reorder placed a provider that can be included after the final function'}[bad[0]]
                 ctx.violations.append(('%s (case %s)' % (what, c.key), write_replay(ctx, 'case_%s.txt' % c.key, c.text()), True))
+    # displaced variants as cases of their own: S4 correspondence, and the order condition of the placement theorem must
+    # hold for the displaced provider (that C17's preconditions imply it is not proved: it is evaluated on every variant)
+    dvar = load_cases(ctx, 'displacevar', 250 if q else 3000)
+    for c in dvar or []:
+        sres, sd = s4_compare(c)
+        st['displaced_S4_' + sres] += 1
+        if sres == 'diff':
+            ctx.violations.append(('S4 correspondence on a displaced variant: %s (case %s)' % (sd, c.key), write_replay(ctx, 'case_%s.txt' % c.key, c.text()), False))
+        ml = next((l for l in c.mlines if l.startswith('m4live ')), None)
+        note = next((l for l in c.lines if l.startswith('case ')), '')
+        mm = re.search(r'note=displaced=(\d+)', note)
+        if ml is None or not mm:
+            continue
+        ent = dict(e.split(':') for e in ml.split()[1:] if ':' in e)
+        kx = ent.get(mm.group(1))
+        if kx is None:
+            continue
+        st['displaced_condition_' + ('not_met' if kx == 'none' else 'met')] += 1
+        hdr, fs = dump_funcs(c, 'S4')
+        if kx != 'none' and fs is not None and any(f['id'] == mm.group(1) and 'dependencies_not_met' in f.get('why', '') for f in fs):
+            ctx.violations.append(('reorder gave up on the displaced provider %s although the order condition of the placement theorem holds (case %s)'
+                                   % (mm.group(1), c.key), write_replay(ctx, 'case_%s.txt' % c.key, c.text()), True))
+    ctx.cov['displaced_variants_S4_same'] = st['displaced_S4_same']
+    ctx.cov['displaced_condition_met'] = st['displaced_condition_met']; ctx.cov['displaced_condition_not_met'] = st['displaced_condition_not_met']
     # keep s7_check's numbers, add the pairs
     base_eval = ctx.cov.get('evaluations', 0); base_dist = ctx.cov.get('distinct_nontrivial', 0); base_tr = ctx.cov.get('traces_validated_against_impl', 0)
     pairs = load_cases(ctx, 'displace', 600 if q else 8000)
@@ -1598,9 +1639,10 @@ def c17(ctx):
     ctx.cov['traces_validated_against_impl'] = base_tr + st['displace-same']
     ctx.cov['displacement_pairs'] = st['displace-same'] + st['displace-diff']
     ctx.cov['reorder_chains_validated'] = st['validated']
+    ctx.cov['placement_condition_met'] = st['placement_condition_met']; ctx.cov['placement_condition_not_met'] = st['placement_condition_not_met']
     ctx.cov['outcomes'] = dict(st)
     ctx.assumptions += ['reorder.go is transcribed (Nject/ReorderAlg.lean): Go maps used as sets are duplicate-free lists, container/heap is pop-minimum over a list, the loop of topo.run has fuel; the transcription must give exactly the order of the implementation\'s S4 dump on every generated chain (S4 correspondence)',
-                        'that the algorithm places a displaced injector correctly under C17\'s preconditions is decided per run (placement validator, displacement pairs), not proved',
+                        'the placement theorem holds under a decidable order condition on the constraint graph (liveHypB); that C17\'s preconditions imply that condition is not proved: the driver evaluates it for every Reorder\'d provider of every generated chain',
                         'Reorder with Loose/interface matching is documented as not playing well together; about 15% of the generated reorder chains use interfaces all the same']
     if len(ctx.violations) > 5:
         ctx.violations.sort(key=lambda v: not v[2]); ctx.violations = ctx.violations[:5]
